@@ -120,6 +120,9 @@ def oracle(case):
         if not (min(tl, th_) <= tt <= max(tl, th_) or close(tt, tl) or close(tt, th_)):
             return f"linear threshold {tt!r} not between lower {tl!r} and higher {th_!r} {info}"
         phi = Kc - math.floor(Kc)
+        if case.get("exact_grid") and phi == 0 and not (close(tt, tl) and close(tt, th_)):
+            # r*N is an exact integer in floats too (power-of-two class size, no easy samples): weight 0, so all three methods agree
+            return f"target exactly on the k/N grid (weight 0): linear {tt!r}, lower {tl!r}, higher {th_!r} do not coincide {info}"
         if case.get("offgrid", True) and phi != 0:
             want = float((1 - phi) * Fraction(float(tl)) + phi * Fraction(float(th_)))
             if not close(tt, want, 64):
@@ -157,10 +160,11 @@ def eval_items(items):
                 prev = None
                 for r in sorted(set(targets)):
                     offgrid = (Fraction(r) * n_all).denominator != 1 and abs(r * n_all - round(r * n_all)) > 1e-6
+                    exact_grid = (not offgrid) and ep == 0 and en == 0 and n_all in (1, 2, 4, 8) and float(r) * n_all == round(r * n_all)
                     for cl in ("bracket", "methods"):
-                        if cl == "methods" and not offgrid and 0 < r < 1:
+                        if cl == "methods" and not offgrid and 0 < r < 1 and not exact_grid:
                             continue          # lower/higher are discontinuous exactly on the grid (float targets fall on either side)
-                        case = dict(base, clause=cl, r=r, offgrid=offgrid)
+                        case = dict(base, clause=cl, r=r, offgrid=offgrid, exact_grid=exact_grid)
                         res = oracle(case)
                         cnt(cl)
                         if res:
